@@ -1,6 +1,7 @@
 package c16
 
 import (
+	"strconv"
 	"strings"
 
 	"github.com/google/martian/v3/har"
@@ -98,6 +99,10 @@ func (P) Gen(r *core.Rand, tier string, emit func([]string)) {
 			}
 		}
 		ops = append(ops, jsonstrOps(r, r.Range(1, 3))...)
+		if r.Chance(1, 4) {
+			// the log as a whole: many more entries, then everything is inspected again
+			ops = append(ops, "logmany "+strconv.Itoa(r.Range(2, 40))+" "+strconv.FormatUint(r.U64()%1000000, 10))
+		}
 		ops = append(ops, "export")
 		emit(ops)
 	}
